@@ -4,29 +4,31 @@ the result behaves like the plain backend output of the same edited IR.
 ENUM (programs x layout deviations) + SEQ (edit histories) + gfortran differential.
 
 Streams
-  MF   mini-Fortran kernels (vf/mfgen.py): quick = the 74 statement/compound forms of base_alphabet(); thorough = the
-       whole stream(L=1, nest=1) (every compound form x every inner statement).  Each kernel is printed by the harness
+  MF   mini-Fortran kernels (vf/mfgen.py): the 74 statement/compound forms of base_alphabet() (thorough: plus the rest
+       of stream(L=1, nest=1), i.e. every compound form x every inner statement).  Each kernel is printed by the harness
        printer into `module kmod` (type tt, routine ext, the kernel); only kernels that the MF interpreter finds
        fully defined on the 9-point input grid are kept, and the (deviated) original must print what the interpreter
        predicts (else HARNESS-ERROR) - so every layout rewrite is known to preserve behaviour.
   LAY  layout deviations = text-level rewrites of the printed module (the harness owns the text, so it knows the
        original text of every program unit): fused_end (enddo/endif), continuation (assignments, call argument lists,
-       DO and IF headers split over `&` lines), spacing, upper (everything outside strings/comments upper-cased), lower
-       keywords stay as printed, left (no indentation), inline_comment (every statement line gets `! cN`),
-       trailing_ws, blank_lines (blank and comment-only lines between statements).  d = 1 quick / <= 2 thorough.
-       No preprocessing anywhere.
-  REPO every free-form Fortran file under $VERIF_REPO without `#` directives that Frontend.FP accepts.
+       DO and IF headers split over `&` lines), spacing, upper (everything outside strings/comments upper-cased),
+       left (no indentation), inline_comment (every statement line gets `! cN`), trailing_ws, blank_lines (blank and
+       comment-only lines between statements).  No preprocessing anywhere.
+  REPO every free-form Fortran file under $VERIF_REPO without `#` directives that Frontend.FP accepts (Part A only).
+  Tiers: see work_items() - quick: all forms undeviated + compound forms and 9 representative simple forms under each
+       single deviation, every single edit; thorough: + pairs of the structural deviations, ordered edit pairs,
+       and the remaining L=1 kernels undeviated.
 
 Part A (unmodified)   Sourcefile.from_source(text).to_fortran(conservative=True) == text, and for every program unit
                       (module, module procedure, internal procedure) unit.to_fortran(conservative=True) equals the
                       unit's original text as found by a harness scan of the text (outer white space stripped).
-Part B (local edits)  on a fresh parse per history; history = one edit (quick) / every ordered pair of edits at
-                      different positions (thorough, undeviated layout + d=1 layouts):
+Part B (local edits)  on a fresh parse per history; history = one edit (quick) / also ordered pairs of edits
+                      (thorough, undeviated layout):
                         noop       Transformer({}) over spec and body (the hint: Transformer._rebuild calls
                                    is_source_valid(node) instead of is_source_valid(node.source), so every node with
                                    children leaves the pass INVALID_CHILDREN)
-                        rhs@k      SubstituteExpressions({rhs_k: rhs_k + 0}) on the body (k-th assignment, any depth)
-                        replace@k  Transformer({assign_k: clone(rhs + 0, source=None)})
+                        rhs@k      SubstituteExpressions({rhs_k: rhs_k + 1}) on the body (k-th assignment, any depth)
+                        replace@k  Transformer({assign_k: clone(rhs + 1, source=None)})
                         insert@k   Transformer({assign_k: (assign_k, `y = y + 0.5`)})
                         remove@k   Transformer({assign_k: None}) - only if the target is a dummy argument (defined on entry)
                         rename     SubstituteExpressions({k: kk}) over spec and body (declaration edit, INVALID_NODE path)
@@ -34,13 +36,15 @@ Part B (local edits)  on a fresh parse per history; history = one edit (quick) /
                       After the edit the harness marks the routine's own Source INVALID_CHILDREN (what
                       loki.lint.utils.Fixer does for enclosing units) and observes routine.to_fortran(conservative=True).
    (i)  every IR node of the edited routine whose source.status is still VALID (maximal ones, document order) occurs in
-        the conservative text with exactly its recorded string, in order                     -> valid-node-not-verbatim
+        the conservative text with exactly its recorded string (outer white space stripped; for an inline comment the
+        comment part), in order                                                              -> valid-node-not-verbatim
    (ii) conservative text and plain fgen text of the *same edited IR* are both built (batched, harness module shell and
         harness PROGRAM) and must print the same on the 9-point grid; if the plain text itself does not build/run the
         edit is `edit-invalid` (counted, not judged)                    -> cons-compile-error / cons-run-error / output-differs
    (iii) a Python exception in the conservative backend                                        -> loki-exception
-Signatures name verdict, edit kind, the node class concerned (i) or the compound construct of the kernel (ii), and the
-layout deviation only if the undeviated layout passes for the same kernel and edit.
+Signatures: (i) verdict + node class; compile errors: verdict + gfortran's first error message (identifiers and
+numbers normalised); output-differs: verdict + edit kind + compound constructs of the kernel; exceptions: message.
+The layout deviation is part of a signature only if the same kernel and history pass without it.
 """
 import logging
 import os
@@ -63,7 +67,7 @@ META = dict(
                'gfortran 12 -O0 -fcheck=bounds; MF interpreter cross-checks every (deviated) original',
 )
 
-CHUNK = 6
+CHUNK = 10
 LAYOUTS = ['fused_end', 'continuation', 'spacing', 'upper', 'left', 'inline_comment', 'trailing_ws', 'blank_lines']
 
 
@@ -362,7 +366,7 @@ def apply_edit(routine, edit):
     if edit['k'] >= len(asg):
         return False
     a = asg[edit['k']]
-    plus0 = sym.Sum((a.rhs, sym.IntLiteral(0)))
+    plus0 = sym.Sum((a.rhs, sym.IntLiteral(1)))   # changes the value: a stale source text is observable
     if kind == 'rhs':
         routine.body = SubstituteExpressions({a.rhs: plus0}).visit(routine.body)
     elif kind == 'replace':
@@ -398,7 +402,11 @@ def valid_nodes(routine):
             return
         src = getattr(o, 'source', None)
         if src is not None and src.status == SourceStatus.VALID and src.string:
-            out.append((type(o).__name__ + ('(inline)' if getattr(o, 'inline', False) else ''), src.string))
+            text = src.string
+            if isinstance(o, ir.Comment) and '!' in text:
+                # an inline comment records the whole line; the backend (by design) re-emits the comment part only
+                text = '!' + text.split('!', 1)[1]
+            out.append((type(o).__name__ + ('(inline)' if getattr(o, 'inline', False) else ''), text))
             return
         for c in flatten(o.children):
             rec(c)
@@ -408,15 +416,12 @@ def valid_nodes(routine):
 
 
 def constructs(routine):
-    """compound node classes of the routine body that are no longer VALID (they are re-assembled by the backend)"""
+    """compound node classes of the routine body (the constructs the backend may have to re-assemble)"""
     from loki import ir, FindNodes
-    from loki.frontend.source import SourceStatus
     names = set()
     for o in FindNodes((ir.Loop, ir.WhileLoop, ir.Conditional, ir.MultiConditional, ir.MaskedStatement, ir.Associate,
                         ir.Forall)).visit(routine.body):
-        src = getattr(o, 'source', None)
-        if src is None or src.status != SourceStatus.VALID:
-            names.add(type(o).__name__ + ('(inline)' if getattr(o, 'inline', False) else ''))
+        names.add(type(o).__name__ + ('(inline)' if getattr(o, 'inline', False) else ''))
     return sorted(names)
 
 
@@ -442,11 +447,12 @@ def run_history(text, kname, history):
     problems = []
     pos = 0
     for cls, s in valid_nodes(routine):
-        at = cons.find(s, pos)
+        # outer white space is position, not text: a node re-indented as a whole still counts as verbatim
+        at = cons.find(s.strip(), pos)
         if at < 0:
             problems.append((cls, s))
         else:
-            pos = at + len(s)
+            pos = at + len(s.strip())
     return dict(status='ok', cons=cons, plain=plain, problems=problems, constructs=constructs(routine))
 
 
@@ -462,21 +468,67 @@ def rename_routine(text, kname, new):
 
 
 def build_many(named_texts, base):
-    """named_texts: [(name, routine text)] -> {name: ('ok', outputs) | ('compile'|'run', err)}"""
-    return mfbatch.run_batch_bisect(named_texts, lambda ks: shell([t for _, t in ks]), base=base)
+    """named_texts: [(name, routine text)] -> {name: ('ok', outputs) | ('compile'|'run', err)}.
+    One build for the whole batch; on a compile error the routines whose line ranges contain error locations are each
+    confirmed alone with -fsyntax-only (an unterminated block can push errors into the next routine) and the batch is
+    rebuilt without the confirmed ones; anything else falls back to bisection."""
+    from vf import gf
+    res = {}
+    todo = list(named_texts)
+    for _ in range(4):
+        if not todo:
+            return res
+        head = mf.module_text('kmod', [])[0].rstrip('\n').split('\n')
+        lines = list(head[:-1])
+        ranges = []
+        for name, t in todo:
+            tl = t.rstrip('\n').split('\n')
+            ranges.append((name, len(lines) + 1, len(lines) + len(tl)))
+            lines += tl
+        lines.append(head[-1])
+        ok, stage, data = mfbatch.build_and_run('\n'.join(lines) + '\n', [n for n, _ in todo], base=base)
+        if ok:
+            for name, _ in todo:
+                res[name] = ('ok', {g: v for (kn, g), v in data.items() if kn == name})
+            return res
+        if stage != 'compile':
+            break
+        errs = {}
+        for m in re.finditer(r'kmod\.f90:(\d+):\d+:\n(?:.*\n){0,6}?(Error|Fatal Error): (.*)', data):
+            ln = int(m.group(1))
+            for name, a, b in ranges:
+                if a <= ln <= b:
+                    errs.setdefault(name, m.group(3))
+        if not errs:
+            break
+        confirmed = []
+        texts = dict(todo)
+        for name in errs:
+            with gf.Build(base) as bld:
+                bld.write('kmod.f90', shell([texts[name]]))
+                ok1, err1 = bld.fsyntax(['kmod.f90'], flags=['-fcheck=bounds'])
+            if not ok1:
+                m1 = re.search(r'Error: (.*)', err1)
+                res[name] = ('compile', f'first error: {m1.group(1) if m1 else "?"}\n' + err1[-1200:])
+                confirmed.append(name)
+        if not confirmed:
+            break
+        todo = [(n, t) for n, t in todo if n not in confirmed]
+    if todo:
+        res.update(mfbatch.run_batch_bisect(todo, lambda ks: shell([t for _, t in ks]), base=base))
+    return res
 
 
-def histories(menu, pairs):
+def histories(menu, pairs, only=None):
+    """single edits (optionally only some kinds at position 0); pairs: every ordered pair of edits taken from the
+    whole-routine edits and the edits at the first assignment"""
+    menu = [e for e in menu if only is None or (e['kind'] in only and e.get('k', 0) == 0)]
     hs = [[e] for e in menu]
     if pairs:
-        pos = [e for e in menu if e['kind'] not in ('noop',)]
+        pos = [e for e in menu if e['kind'] != 'noop' and e.get('k', 0) == 0]
         for a in pos:
             for b in pos:
-                if a is b or (a.get('k') is not None and a.get('k') == b.get('k')):
-                    continue
-                # the second edit addresses the k-th assignment of the *edited* routine: keep positions stable by
-                # never following insert/remove at a smaller index
-                if a['kind'] in ('insert', 'remove') and b.get('k') is not None and b['k'] > a['k']:
+                if a is b or (a.get('k') is not None and b.get('k') is not None):
                     continue
                 hs.append([a, b])
     return hs
@@ -521,10 +573,12 @@ def judge_chunk(chunk):
         from loki import Sourcefile, Frontend
         routine = Sourcefile.from_source(rec['text'], frontend=Frontend.FP)[rec['kid']]
         menu = edit_menu(routine)
-        for n, h in enumerate(histories(menu, it['pairs'])):
+        for n, h in enumerate(histories(menu, it['pairs'], it.get('only'))):
             hname = '+'.join(edit_name(e) for e in h)
             try:
                 r = run_history(rec['text'], rec['kid'], h)
+                if r['status'] == 'loki-exception':
+                    r = run_history(rec['text'], rec['kid'], h)   # transient failures of the shared machine do not repeat
             except Exception as ex:  # pylint: disable=broad-except
                 rec['b'].append(dict(edit=hname, history=h, verdict='edit-raises', detail=f'{type(ex).__name__}: {str(ex)[:160]}'))
                 continue
@@ -612,21 +666,71 @@ def kernels(quick):
     return out
 
 
+SIMPLE_REPS = ('p=q+2', 't%v(2)=t%v(1)+x', 'ia(1:n)=p', 'call ext(p,k,q,ia(1))', 'call helper(q+1,p)', 'p=fsq(q)+fsq(2)',
+               'print', 'iounit', 'comment')
+STRUCTURAL = ('fused_end', 'continuation', 'inline_comment', 'blank_lines')
+
+
 def work_items(quick):
-    ks = kernels(quick)
-    base_names = {n for n, _ in mfgen.base_alphabet()}
+    """quick   : every L=1 form x undeviated layout x every single edit;
+                 compound forms + SIMPLE_REPS x each of the 8 layout deviations x every single edit.
+       thorough: + compound forms x every pair of the STRUCTURAL deviations x every single edit;
+                 + every L=1 form, undeviated: ordered pairs of edits (whole-routine edits and edits at the first assignment);
+                 + the remaining kernels of stream(L=1, nest=1), undeviated, edits noop / rhs@0 / remove@0."""
+    grid = mf.input_grid()
+    simple = {n for n, _ in mfgen.simple_forms()}
+    base = [(n, b) for n, b in mfgen.base_alphabet()]
     items = []
-    for n, (name, body, outs) in enumerate(ks):
-        for lay in layouts(1 if quick else 2):
-            if len(lay) == 2 and name not in base_names:
+
+    def add(name, body, outs, lay, pairs=False, only=None):
+        items.append(dict(kid=f'kq{len(items):05d}', name=name, body=body, outs=outs, layout=lay, pairs=pairs, only=only))
+
+    valid = []
+    for name, body in base:
+        outs = mf.valid_on_grid(body, grid)
+        if outs is not None:
+            valid.append((name, body, outs))
+    for name, body, outs in valid:
+        add(name, body, outs, (), pairs=not quick)
+        if name not in simple or name in SIMPLE_REPS:
+            for lay in layouts(1)[1:]:
+                add(name, body, outs, lay)
+    if not quick:
+        for name, body, outs in valid:
+            if name not in simple:
+                for lay in layouts(2):
+                    if len(lay) == 2 and set(lay) <= set(STRUCTURAL):
+                        add(name, body, outs, lay)
+        seen = {repr(b) for _, b, _ in valid}
+        for name, body in mfgen.stream(1, 1):
+            if repr(body) in seen:
                 continue
-            pairs = (not quick) and len(lay) <= 1 and name in base_names
-            items.append(dict(kid=f'kq{n:04d}x{len(items):05d}', name=name, body=body, outs=outs, layout=lay, pairs=pairs))
+            outs = mf.valid_on_grid(body, grid)
+            if outs is not None:
+                add(name, body, outs, (), only=('noop', 'rhs', 'remove'))
     return items
 
 
-def sig_a(what):
-    return f'unmodified {what}'
+def norm_msg(detail):
+    m = re.search(r'first error: (.*)', detail) or re.search(r'Error: (.*)', detail)
+    msg = m.group(1) if m else 'unknown'
+    msg = re.sub(r'[\u2018\u2019\'"`][^\u2018\u2019\'"`]*[\u2018\u2019\'"`]', '_', msg)
+    msg = re.sub(r'\d+', 'N', msg)
+    msg = re.sub(r'Unexpected (.*) statement in CONTAINS section', 'Unexpected statement in CONTAINS section', msg)
+    return re.sub(r'\s+', ' ', msg).strip()[:90]
+
+
+def core_sig(e):
+    """what failed, without layout"""
+    v = e['verdict']
+    kinds = '+'.join(x['kind'] for x in e['history'])
+    if v == 'valid-node-not-verbatim':
+        return f'{v} node={e["node"]}'
+    if v == 'cons-compile-error':
+        return f'{v} msg={norm_msg(e["detail"])}'
+    if v == 'loki-exception':
+        return f'{v} {re.sub(chr(92) + "s+", " ", e["detail"])[:100]}'
+    return f'{v} edit={kinds} construct={"+".join(e.get("constructs") or []) or "none"}'
 
 
 def run(ctx):
@@ -636,71 +740,102 @@ def run(ctx):
     judge_chunk.base = str(ctx.scratch)
     ctx.reset_pool()
     recs = [r for res in ctx.pmap(judge_chunk, chunks, chunksize=1) for r in res]
-    recs.sort(key=lambda r: r['kid'][-5:])
+    recs.sort(key=lambda r: r['kid'])
+    files = repo_files()
+    rres = ctx.pmap(judge_repo_file, files, chunksize=4)
+    if os.environ.get('VERIF_DUMP'):
+        import json
+        with open(os.environ['VERIF_DUMP'], 'w') as fh:
+            json.dump(dict(recs=recs, repo=rres), fh)
     harness = [r for r in recs if r.get('harness')]
     ctx.require(not harness, f'{len(harness)} deviated originals are broken, first: {harness[0]["name"] if harness else ""} '
                              f'{harness[0]["layout"] if harness else ""}: {harness[0]["harness"] if harness else ""}')
-    # undeviated results per (kernel name, edit) explain deviated ones
-    plain_layout = {(r['name'], e['edit']): e['verdict'] for r in recs if not r['layout'] for e in r['b']}
-    single_layout = {(r['name'], e['edit'], r['layout'][0]): e['verdict'] for r in recs if len(r['layout']) == 1 for e in r['b']}
-    single_edit = {(r['name'], tuple(r['layout']), e['edit']): e['verdict'] for r in recs for e in r['b'] if '+' not in e['edit']}
-    tally, judged, units, nvalid = {}, 0, 0, 0
+    judge(ctx, recs, rres, files)
+
+
+def judge(ctx, recs, rres, files):
+    """signatures: what fails without any layout deviation (same kernel, same history) explains the deviated layouts;
+    a failing single deviation explains a pair of deviations; a failing single edit explains an edit pair; for compile
+    errors that need a deviation the deviation is the key (gfortran's first message varies with the statement that
+    happens to follow the damage): plus the kernel's constructs unless the plainest kernel (p=q+2) fails the same way."""
+    def vkey(e):
+        return core_sig(e) if e['verdict'] != 'cons-compile-error' else 'cons-compile-error'
+
+    a_plain = {(r['name'], w) for r in recs if not r['layout'] for w, _ in r['a']}
+    a_one = {(r['name'], r['layout'][0], w) for r in recs if len(r['layout']) == 1 for w, _ in r['a']}
+    b_plain = {(r['name'], e['edit'], core_sig(e)) for r in recs if not r['layout'] for e in r['b'] if e['verdict'] not in OKV}
+    b_one = {(r['name'], e['edit'], r['layout'][0], vkey(e)) for r in recs if len(r['layout']) == 1 for e in r['b']
+             if e['verdict'] not in OKV}
+    plainest = {(r['layout'][0], '+'.join(x['kind'] for x in e['history'])) for r in recs
+                if r['name'] == 'p=q+2' and len(r['layout']) == 1 for e in r['b'] if e['verdict'] == 'cons-compile-error'}
+    single_edit = {(r['name'], tuple(r['layout']), e['edit']): e for r in recs for e in r['b']
+                   if '+' not in e['edit'] and e['verdict'] not in OKV}
+    mf_whats = {w for r in recs for w, _ in r['a']}
+    tally, judged, units = {}, 0, 0
     for r in recs:
         units += r['units']
         for what, detail in r['a']:
-            lay = '+'.join(r['layout']) or 'none'
-            ctx.violation(f'{sig_a(what)} layout={lay}', dict(part='A', text=r['text'], name=r['name'], layout=r['layout']), detail)
+            lay = ''
+            if r['layout'] and (r['name'], what) not in a_plain:
+                cul = [l for l in r['layout'] if (r['name'], l, what) in a_one] if len(r['layout']) > 1 else []
+                lay = ' layout=' + (cul[0] if cul else '+'.join(r['layout']))
+            ctx.violation(f'unmodified {what}{lay}', dict(part='A', text=r['text'], name=r['name'], layout=r['layout']), detail)
         for e in r['b']:
             tally[e['verdict']] = tally.get(e['verdict'], 0) + 1
-            if e['verdict'] in ('ok', 'edit-invalid'):
+            if e['verdict'] in OKV:
                 judged += e['verdict'] == 'ok'
                 continue
-            v = e['verdict']
-            kinds = '+'.join(edit_name(dict(kind=x['kind'])) for x in e['history'])
-            # a failing single edit explains a pair containing it
+            ee = e
             if len(e['history']) == 2:
-                sub = [edit_name(x) for x in e['history']]
-                if any(single_edit.get((r['name'], tuple(r['layout']), s)) == v for s in sub):
-                    kinds = next(x['kind'] for x, s in zip(e['history'], sub)
-                                 if single_edit.get((r['name'], tuple(r['layout']), s)) == v)
+                # a failing single edit explains a pair containing it
+                for x in e['history']:
+                    e1 = single_edit.get((r['name'], tuple(r['layout']), edit_name(x)))
+                    if e1 and e1['verdict'] == e['verdict']:
+                        ee = e1
+                        break
+            core = core_sig(ee)
             lay = ''
-            if r['layout'] and plain_layout.get((r['name'], e['edit'])) != v:
-                cul = [l for l in r['layout'] if single_layout.get((r['name'], e['edit'], l)) == v] if len(r['layout']) > 1 else []
-                lay = ' layout=' + (cul[0] if cul else '+'.join(r['layout']))
-            what = f'node={e["node"]}' if v == 'valid-node-not-verbatim' else f'construct={"+".join(e.get("constructs") or []) or "none"}'
-            if v in ('loki-exception', 'edit-raises'):
-                what += ' ' + re.sub(r'\s+', ' ', e['detail'].split(' @ ')[0])[:80]
-            ctx.violation(f'{v} edit={kinds} {what}{lay}',
+            if r['layout'] and (r['name'], ee['edit'], core) not in b_plain:
+                cul = [l for l in r['layout'] if (r['name'], ee['edit'], l, vkey(ee)) in b_one] if len(r['layout']) > 1 else []
+                culprit = cul[0] if cul else '+'.join(r['layout'])
+                lay = ' layout=' + culprit
+                if ee['verdict'] == 'cons-compile-error':
+                    kinds = '+'.join(x['kind'] for x in ee['history'])
+                    core = 'cons-compile-error'
+                    if (culprit, kinds) not in plainest:
+                        core += f' construct={"+".join(ee.get("constructs") or []) or "none"}'
+            ctx.violation(f'{core}{lay}',
                           dict(part='B', text=r['text'], kid=r['kid'], name=r['name'], layout=r['layout'], history=e['history']),
                           e['detail'])
-    # repo sources
-    files = repo_files()
-    rres = ctx.pmap(judge_repo_file, files, chunksize=4)
     rt = {}
     for rr in rres:
         rt[rr['status']] = rt.get(rr['status'], 0) + 1
         for what, detail in rr.get('problems', []):
             rel = os.path.relpath(rr['path'], os.environ.get('VERIF_REPO', '/repo'))
-            ctx.violation(f'{sig_a(what)} repo-file={rel}', dict(part='R', path=rel), detail)
+            where = '' if what in mf_whats else f' repo-file={rel}'
+            ctx.violation(f'unmodified {what}{where}', dict(part='R', path=rel), detail)
         units += rr.get('units', 0)
     ctx.require(rt.get('judged', 0) >= 20, f'vacuous: only {rt.get("judged", 0)} repository sources judged ({rt})')
     ctx.require(judged >= 200, f'vacuous: only {judged} edit histories judged ok ({tally})')
     nk = len({r['name'] for r in recs})
+    quick = ctx.quick
     ctx.cov.update(
         evaluations=len(recs) + sum(len(r['b']) for r in recs) + len(files), distinct_nontrivial=judged,
         programs=len(recs), kernels=nk, edit_histories=sum(len(r['b']) for r in recs), edit_verdicts=tally,
         units_compared=units, repo_files=rt, exhaustive=True,
-        bound=dict(kernels='base_alphabet (L=1 forms)' if ctx.quick else 'stream(L=1, nest=1)', layout_deviations=1 if ctx.quick else 2,
-                   layouts=len(layouts(1 if ctx.quick else 2)), edit_history_length=1 if ctx.quick else 2, inputs=len(mf.input_grid())),
-        rule='every valid kernel x every layout with <= d deviations (2-deviation layouts and edit pairs: the L=1 forms only); '
-             'every single edit (thorough: ordered pairs at distinct positions) of the menu at every assignment position; '
-             'non-trivial = histories whose plain-backend text builds and runs and whose conservative text passed (i) and (ii)',
+        bound=dict(kernels='L=1 forms (base_alphabet)' if quick else 'L=1 forms + stream(L=1, nest=1)',
+                   layout_deviations=1 if quick else 2, edit_history_length=1 if quick else 2, inputs=len(mf.input_grid())),
+        rule=work_items.__doc__ + ' non-trivial = histories whose plain-backend text builds and runs and whose conservative '
+             'text passed (i) and (ii)',
         samples=[dict(name=recs[0]['name'], layout=recs[0]['layout'], text=recs[0]['text']),
                  dict(name=recs[-1]['name'], layout=recs[-1]['layout'], edits=[e['edit'] for e in recs[-1]['b']][:12])],
     )
     ctx.assumptions += ['gfortran 12.2 -O0 -fcheck=bounds defines program behaviour',
                         'the harness marks the edited routine\'s own Source INVALID_CHILDREN before emitting (as Fixer does for enclosing units)',
                         'unit texts come from a harness scan for (module|subroutine|function) <name> ... end <kind> <name> lines']
+
+
+OKV = ('ok', 'edit-invalid', 'edit-raises')
 
 
 def replay(case):
